@@ -59,10 +59,34 @@ def systems():
     return dict(double_integrator=s1, mixed_vector_chains=s2, higher_order_control=s3)
 
 
+def greville_kernel(out):
+    """rockit.splines.micro_spline.get_greville_points against the definition: coefficient i of a degree-d spline on the
+    clamped knot vector K sits at mean(K[i+1..i+d]); degree 0: at the middle of knot span i"""
+    import casadi as ca
+    from rockit.splines.micro_spline import get_greville_points
+    for N in range(1, 9):
+        uni = np.linspace(0, 1, N + 1)
+        geo = np.concatenate([[0.0], np.cumsum(2.0 ** np.arange(N))]); geo = geo / geo[-1]
+        irr = np.concatenate([[0.0], np.cumsum(1.0 + 0.37 * ((np.arange(N) * 7) % 5))]); irr = irr / irr[-1]
+        for kname, xi in (("uniform", uni), ("geometric", geo), ("irregular", irr)):
+            for d in range(0, 5):
+                tag = "N=%d,d=%d,%s" % (N, d, kname)
+                try:
+                    got = np.array(ca.evalf(ca.DM(get_greville_points(ca.DM(xi.reshape(1, -1)), d)))).reshape(-1)
+                except Exception as e:
+                    out.append(dict(what="greville-points", config=tag, ok=False, detail="%s: %s" % (type(e).__name__, str(e)[:160])))
+                    continue
+                K = clamped(list(xi), d)
+                want = np.array([np.mean(K[i + 1:i + d + 1]) for i in range(N + d)]) if d > 0 else (xi[1:] + xi[:-1]) / 2
+                ok = got.shape == want.shape and np.max(np.abs(got - want)) < 1e-12
+                out.append(dict(what="greville-points", config=tag, ok=bool(ok), detail="" if ok else "get_greville_points %s vs definition %s" % (np.round(got, 6).tolist(), np.round(want, 6).tolist())))
+
+
 def main():
     import casadi as ca
     from rockit import Ocp, SplineMethod, UniformGrid, GeometricGrid
     out = []
+    greville_kernel(out)
     rs = np.random.RandomState(0)
     UB = 1234.5
     for sname, build in systems().items():
@@ -110,8 +134,9 @@ def main():
                             want = np.array([cg @ basis(K, d, min(max((t - t0) / T, xi[0]), xi[-1])) for t in ts]) if d > 0 else None
                             if d > 0 and (len(ts) != N * refine + 1 or np.max(np.abs(want - vs)) > 1e-9 * (1 + np.max(np.abs(want)))):
                                 okA, dA = False, "%s: samples %s vs Cox-de Boor of the gist coefficients %s" % (nm, np.round(vs, 5).tolist()[:6], np.round(want, 5).tolist()[:6])
-                            if d > 0:
-                                gre = np.array([np.mean(K[i + 1:i + d + 1]) for i in range(len(cg))])
+                            if d >= 0:
+                                # degree 0 (piecewise constant): the coefficient of knot span i sits at the middle of that span
+                                gre = np.array([np.mean(K[i + 1:i + d + 1]) for i in range(len(cg))]) if d > 0 else (xi[1:] + xi[:-1]) / 2
                                 if len(tg) != len(cg) or np.max(np.abs(tg - (t0 + T * gre))) > 1e-9:
                                     okB, dB = False, "%s: gist times %s vs t0+T*Greville %s" % (nm, np.round(tg, 5).tolist(), np.round(t0 + T * gre, 5).tolist())
                         out.append(dict(what="samples-are-cox-de-boor-of-gist-coefficients", config=tag, ok=bool(okA), detail=dA))
